@@ -46,9 +46,17 @@ class StreamsFamily(ScenarioFamily):
                              {"after_headers": r.randint(1, n)},
                              {"after_headers": r.randint(1, n), "delay": r.choice([0.001, 0.02])}])
             if x < 0.55:
-                events.append({"when": when, "do": "settings",
-                               "settings": {"max_concurrent_streams":
-                                            r.choice([1, 1, 2, 3, 10, 100])}})
+                if r.random() < 0.3:
+                    # a SETTINGS frame that says nothing about the stream limit, which
+                    # therefore stays what it was
+                    events.append({"when": when, "do": "settings", "partial": True,
+                                   "settings": {"initial_window_size":
+                                                r.choice([1000, 65535, 100000, 200000])}})
+                else:
+                    events.append({"when": when, "do": "settings",
+                                   "partial": r.random() < 0.5,
+                                   "settings": {"max_concurrent_streams":
+                                                r.choice([1, 1, 2, 3, 10, 100])}})
             elif x < 0.75:
                 events.append({"when": when, "do": "rst", "nth": r.randint(0, 3),
                                "code": r.choice([0, 2, 7, 8])})
@@ -190,14 +198,48 @@ def streams_oracle(res, scn):
                 # and the connection is unusable by design (fix d72a86d); not a wedge
                 continue
             if "Max outbound streams" in msg:
-                # the client released its slot while the stream was still open on the wire
-                ec = early_closers(scn)
-                w.violate("C12", "request-beyond-limit-failed%s" % (
-                    ":after-early-close" if ec else ""), {"token": tok, "msg": msg})
+                w.violate("C12", "request-beyond-limit-failed" + _beyond_limit_cause(res, tok),
+                          {"token": tok, "msg": msg})
                 return
             w.violate("C12", "other-stream-failed:%s:%s" % (out["exc"], _trigger(w, scn)),
                       {"token": tok, "msg": msg})
             return
+
+
+def _beyond_limit_cause(res, tok):
+    """Why did h2 refuse a stream the client's own slot accounting had admitted?  The
+    signature names the cause that is present in the history, so that a failure none
+    of the known causes explains is reported as new."""
+    w = res.world
+    led = w.ledger
+    beyond = {o["token"] for o in res.outcomes.values()
+              if "exc" in o and "Max outbound streams" in (o.get("msg") or "")}
+    fail = [e[0] for e in led.of("exc") if e[4] in beyond]
+    seq_f = min(fail) if fail else len(led.ev)
+    started = {e[4] for e in led.of("call") if e[0] < seq_f}
+    # (a) another caller that had started before abandoned its stream before it ended
+    # (closed early, cancelled or failed for another reason): the client gives the slot
+    # back, h2 still counts the stream (KF-C12-2).  The outcome is logged when the close
+    # has finished, the slot is released when it starts, hence no order on that event.
+    for e in led.ev:
+        k = e[2]
+        if e[2] in ("cancelled", "exc", "ret") and e[4] in started and e[4] not in beyond:
+            if k != "ret" or (len(e) > 7 and e[7] is False):
+                return ":after-early-close"
+    # (b) the advertised limit changed at least twice: successive SETTINGS frames are
+    # applied one at a time with a checkpoint per slot (KF-C12-3)
+    vals = [1]     # the client's limit before any SETTINGS frame has arrived
+    for e in led.of("h2_srv_settings"):
+        if e[0] > seq_f:
+            break
+        d = dict(e[4])
+        if "max_concurrent_streams" in d:
+            v = min(d["max_concurrent_streams"], 100)
+            if v != vals[-1]:
+                vals.append(v)
+    if len(vals) >= 3:
+        return ""
+    return ":unexplained"
 
 
 def _trigger(w, scn):
@@ -237,6 +279,19 @@ class FlowFamily(ScenarioFamily):
                                              {"after_data": r.choice([1, 1000, 50000])}]),
                            "do": "settings",
                            "settings": {"initial_window_size": r.choice([1, 100, 1000, 65535, 300000])}})
+        if r.random() < 0.35:
+            # later SETTINGS frames that move MAX_FRAME_SIZE (up, and down again) and the
+            # window, at instants at which uploads are parked waiting for credit
+            for _ in range(r.choice([1, 2, 2, 3])):
+                s = {}
+                if r.random() < 0.8:
+                    s["max_frame_size"] = r.choice([16384, 16384, 20000, 65536, 100000])
+                if not s or r.random() < 0.4:
+                    s["initial_window_size"] = r.choice([1000, 65535, 300000])
+                events.append({"when": r.choice([{"t": r.choice([0.001, 0.01, 0.05, 0.3])},
+                                                 {"after_data": r.choice([1, 1000, 20000, 50000,
+                                                                          100000])}]),
+                               "do": "settings", "settings": s, "partial": r.random() < 0.5})
         ep = {"kind": "origin", "tls": tls,
               "h2": {"settings": st, "events": events,
                      "wu": r.choice(["eager", "tiny", "late", "stream_first", "conn_first",
@@ -496,6 +551,6 @@ register("C13", {
             "part: the credit returned covers at least every body byte handed to a caller",
     "assumptions": ["a few response bodies beyond the client's 16 MiB + 65535 credit per run "
                     "(big-download family); uploads are bounded to a few multiples of the window"],
-}, [FlowFamily("flow-async", "asyncio", 2000, 40000),
-    FlowFamily("flow-threads", "threads", 300, 6000),
+}, [FlowFamily("flow-async", "asyncio", 4000, 60000),
+    FlowFamily("flow-threads", "threads", 500, 8000),
     BigDownloadFamily("big-download-async", 8, 64)])
